@@ -18,7 +18,7 @@ RULE = ('cases = exchanges between one real stack and a scripted conforming peer
         'window class, intervals configured, peer policy)')
 ASSUMPTIONS = ['the configured connection-mode interval is judged between consecutive packets of one CTS window (a new CTS is the responder\'s explicit clearance for the next packet)',
                'time stamps are the virtual instants at which the stack hands frames to its send backend; tolerance 2 us for "no closer", 2 ms for "no further apart"']
-MIN_OBS = {'exchanges': {'quick': 1200, 'thorough': 25000}, 'cts_checked': {'quick': 4000, 'thorough': 100000}, 'dt_checked': {'quick': 25000, 'thorough': 500000},
+MIN_OBS = {'exchanges': {'quick': 1200, 'thorough': 20000}, 'cts_checked': {'quick': 4000, 'thorough': 100000}, 'dt_checked': {'quick': 25000, 'thorough': 500000},
            'holds_exercised': {'quick': 500, 'thorough': 10000}, 'expired_holds': {'quick': 30, 'thorough': 600}, 'bam_gaps_measured': {'quick': 3000, 'thorough': 60000}, 'cmdt_gaps_measured': {'quick': 1500, 'thorough': 30000}}
 
 
